@@ -96,7 +96,11 @@ type c19Rule struct {
 }
 
 func (r *c19Rule) BackupFilename() string {
-	r.nrot.Add(1)
+	n := r.nrot.Add(1)
+	if r.w.cfg.Names == "yesterday" && n == 1 {
+		// the current file was started yesterday: the real daily name of yesterday
+		return fmt.Sprintf("%s%s%s", r.f.filename, r.w.cfg.Delim, r.w.now0.Add(-24*time.Hour).Format(dateFormat))
+	}
 	if r.w.cfg.Names != "counter" {
 		return r.inner.BackupFilename()
 	}
@@ -150,13 +154,47 @@ func (c *c19CountW) Write(p []byte) (int, error) {
 }
 func (c *c19CountW) Close() error { return c.lg.Close() }
 
+// c19WorkersParked: every writer goroutine (RotateLogger.startWorker) is blocked in its select,
+// i.e. none of them is in the middle of a write.
+func c19WorkersParked() bool {
+	for _, g := range strings.Split(kit.Stacks(), "\n\n") {
+		if strings.Contains(g, "(*RotateLogger).startWorker") && !strings.HasPrefix(g, "goroutine ") {
+			continue
+		}
+		if strings.Contains(g, "(*RotateLogger).startWorker.func") {
+			head := g[:strings.IndexByte(g+"\n", '\n')]
+			if !strings.Contains(head, "[select") {
+				return false
+			}
+		}
+	}
+	return true
+}
+
+var c19Resyncs atomic.Int64
+
 // sync: once the writer goroutine asks ShallRotate about the driver's empty record, every
-// record queued before it is completely processed.
+// record queued before it is completely processed.  The fast path counts ShallRotate calls
+// (one per record on the unchanged code).  The barrier must not depend on that: when the count
+// does not arrive although the queue is empty and every writer goroutine is parked in its
+// select, the logger has consumed the records some other way; the barrier then goes by the
+// goroutine states and the files decide.
 func (f *c19Fam) sync() (raced bool, err error) {
 	r := f.rule
-	deadline := time.Now().Add(30 * time.Second)
+	start := time.Now()
+	lastCalls, lastChange := r.calls.Load(), start
 	for r.calls.Load() < f.sent.Load()+r.markers { // everything queued so far has passed ShallRotate
-		if time.Now().After(deadline) {
+		now := time.Now()
+		if c := r.calls.Load(); c != lastCalls {
+			lastCalls, lastChange = c, now
+		}
+		if now.Sub(lastChange) > 2*time.Millisecond && len(f.lg.channel) == 0 && c19WorkersParked() && len(f.lg.channel) == 0 {
+			// fewer ShallRotate calls than records, yet nothing is queued and nobody is writing
+			r.markers = r.calls.Load() - f.sent.Load()
+			c19Resyncs.Add(1)
+			break
+		}
+		if now.Sub(start) > 60*time.Second {
 			return false, fmt.Errorf("writer goroutine of %q is stuck: %d records, %d ShallRotate calls\n%s",
 				f.name, f.sent.Load()+r.markers, r.calls.Load(), kit.Stacks())
 		}
@@ -660,9 +698,14 @@ func runC19Case(c kit.Case, root string, tr *kit.Tracer, rep *kit.Reporter) (v k
 		if f == main && len(obs["files"].([]kit.M)) != len(w.cfg.Pre) {
 			return infra(fmt.Errorf("%d pre-existing backups created, %d seen", len(w.cfg.Pre), len(obs["files"].([]kit.M))))
 		}
+		// a backup named by a date holds records up to the END of that day: 24 h are taken off its age
+		slack := 0
+		if w.cfg.Rule == "daily" {
+			slack = 24
+		}
 		obs["ev"], obs["h"], obs["fam"] = "init", c.Index, f.name
 		obs["cfg"] = kit.M{"rule": w.cfg.Rule, "maxSize": w.cfg.MaxSize, "maxBackups": w.cfg.MaxBackups, "days": w.cfg.Days,
-			"gzip": w.cfg.Gzip, "slack": 0}
+			"gzip": w.cfg.Gzip, "slack": slack}
 		f.events = append(f.events, obs)
 	}
 	famOf := func(st kit.M) *c19Fam {
@@ -897,4 +940,5 @@ func TestVerifC19(t *testing.T) {
 		rep.Put(runC19Case(c, root, tr, rep))
 	}
 	rep.Count("events", int(tr.N))
+	rep.Count("barrier_resyncs", int(c19Resyncs.Load()))
 }
